@@ -48,7 +48,11 @@ func validCase(c *hc.Ctx, grids []*Grid, maxW int64) (*Grid, [][]Pt, string) {
 		g := pickGrid(c, grids)
 		w := randWindow(c.Rng, g, maxW)
 		poly, kind := genValidPolygon(c.Rng, w)
-		if g.Dyadic && c.Rng.Intn(8) == 0 {
+		if g.Dyadic && c.Rng.Intn(16) == 0 {
+			if pp, ok := genTrapezium(c.Rng, w); ok {
+				poly, kind = pp, "trapezium+hole"
+			}
+		} else if g.Dyadic && c.Rng.Intn(8) == 0 {
 			if pp, ok := genRectilinear(c.Rng, w); ok {
 				poly, kind = pp, "rectilinear"
 				if len(pp) > 1 {
@@ -321,7 +325,7 @@ func runC04(c *hc.Ctx) error {
 		ids := randIDs(c.Rng, g)
 		if i%10 == 9 { // a few pixels on WebMercatorQuad at a deep tile matrix, |x| beyond 2^24 m
 			if dg, dp, did, ok := deepRealCase(c.Rng); ok {
-				g, poly, kind, ids = dg, dp, "deep real grid", []int{did}
+				g, poly, kind, ids = dg, dp, lastDeepKind, []int{did}
 			}
 		}
 		cfg := randCfg(c.Rng)
@@ -465,7 +469,7 @@ func runC18(c *hc.Ctx) error {
 		}
 		if i%10 == 9 { // a few pixels on a real grid at a deep tile matrix far from the origin
 			if dg, dp, did, ok := deepRealCase(c.Rng); ok {
-				g, poly, kind, id, ids = dg, dp, "deep real grid", did, []int{did}
+				g, poly, kind, id, ids = dg, dp, lastDeepKind, did, []int{did}
 			}
 		}
 		cfg := randCfg(c.Rng)
